@@ -469,6 +469,27 @@ class World:
 
                         mod.quaternion_lu = failing
                         undo.append((mod, "quaternion_lu", orig))
+            if fault.get("utri_zero") is not None:
+                # forced "zero diagonal in the small triangular solve": the idx-th modulus
+                # computed by absQsparse reports 0, which sends UtriangleQsparse down its
+                # "no solution but least squares" branch (a fault path C04 names)
+                state = {"n": 0, "at": int(fault["utri_zero"])}
+                seen = set()
+                for nm, mod in self.repo_modules():
+                    orig = mod.__dict__.get("absQsparse")
+                    if orig is None or getattr(orig, "_qsim_wrap", False):
+                        continue
+
+                    def forced_abs(A0, A1, A2, A3, _orig=orig, _st=state):
+                        r = _orig(A0, A1, A2, A3)
+                        _st["n"] += 1
+                        if _st["n"] == _st["at"]:
+                            return (r[0] * 0.0,) + tuple(r[1:])
+                        return r
+
+                    forced_abs._qsim_wrap = True
+                    mod.absQsparse = forced_abs
+                    undo.append((mod, "absQsparse", orig))
             if fault.get("jitter") is not None:
                 jr = np.random.Generator(np.random.PCG64([int(fault["jitter"]), 7]))
                 ulp = 2.0 ** -52
